@@ -1,0 +1,14 @@
+//go:build verif
+
+package gabi
+
+import "github.com/privacybydesign/gabi/big"
+
+// Verification hooks for C18 (serialisation round trips): the receiver-side secrets a harness
+// needs to judge an IssueSignatureMessage the way ConstructCredential does. Add-only.
+
+// VerifVPrime returns the builder's blinding value v'.
+func (b *CredentialBuilder) VerifVPrime() *big.Int { return b.vPrime }
+
+// VerifMUser returns the user's shares of the random blind attributes.
+func (b *CredentialBuilder) VerifMUser() map[int]*big.Int { return b.mUser }
